@@ -138,10 +138,17 @@ Qed.
 Lemma hash_content_err : forall c, content_rt_fails c = true -> hash_content c = Err.
 Proof. intros c H. unfold hash_content. rewrite H. reflexivity. Qed.
 
-(* a value kustomize accepts and cannot hash (finding hash-yaml-roundtrip-leading-tab) *)
+(* a key kustomize accepts and cannot hash (finding hash-yaml-roundtrip-merge-key) *)
 Lemma hash_total_refuted :
-  exists c, ct_secret c = false /\ ct_data c = Some [("k", sb [9; 120; 10; 121]%N)] /\ hash_content c = Err.
-Proof. exists (mkContent false (Some [("k", sb [9; 120; 10; 121]%N)]) [] ""). repeat split. Qed.
+  exists c, ct_secret c = false /\ ct_data c = Some [("<<", "v")] /\ hash_content c = Err.
+Proof. exists (mkContent false (Some [("<<", "v")]) [] ""). repeat split. Qed.
+
+(* regression (was the witness of hash-yaml-roundtrip-leading-tab until the repair baa93c5 of makeConfigMapValueRNode):
+   a value that starts with a TAB and has two lines is hashed *)
+Example hash_leading_tab_regression :
+  yaml_rt_fails (sb [9; 120; 10; 121]%N) = true /\
+  exists s, hash_content (mkContent false (Some [("k", sb [9; 120; 10; 121]%N)]) [] "") = Ok s.
+Proof. split; [reflexivity|]. eexists. vm_compute. reflexivity. Qed.
 
 Lemma sapp_assoc : forall a b c : string, (a ++ b) ++ c = a ++ (b ++ c).
 Proof. induction a; cbn; intros; [reflexivity | f_equal; apply IHa]. Qed.
